@@ -535,6 +535,160 @@ print(json.dumps({"n": len(Serializer.MESSAGE_TYPE_MAP), "bad": bad}))
                                      "Interrupt", "Yield"])))
 
 
+_FUZZ_HARNESS = r'''
+import json, random
+import txaio; txaio.use_asyncio()
+from autobahn.wamp import message as M
+from autobahn.wamp.message import *
+from autobahn.wamp.exception import ProtocolError, InvalidUriError
+import re as _re
+WS = [c for c in map(chr, range(0x30000)) if c.isspace()]
+def comp_ok(c, strict):
+    return bool(c) and (all(ch in "0123456789abcdefghijklmnopqrstuvwxyz_" for ch in c) if strict else
+                        all(ch not in WS and ch not in ".#" for ch in c))
+def uri_ok(s, strict, ale, ae):
+    parts = s.split(".")
+    if ale:
+        return all(comp_ok(c, strict) for c in parts[:-1]) and (parts[-1] == "" or comp_ok(parts[-1], strict))
+    if ae:
+        return all(c == "" or comp_ok(c, strict) for c in parts)
+    return all(comp_ok(c, strict) for c in parts)
+def id_ok(v): return 0 <= v <= 2 ** 53
+def str_keys(d): return all(type(k) is str for k in d)
+def enc_algo_ok(x): return x in ("cryptobox", "mqtt", "xbr") or bool(_re.fullmatch(r"x_([a-z][0-9a-z_]+)?", x))
+def enc_ser_ok(x): return x in ("json", "msgpack", "cbor", "ubjson", "flatbuffers") or bool(_re.fullmatch(r"x_([a-z][0-9a-z_]+)?", x))
+globals().update({k: getattr(M, k) for k in dir(M) if isinstance(getattr(M, k), type)})     # classes outside __all__ too
+UNITS = UNITS_JSON
+rnd = random.Random(SEED)
+SCALARS = [0, 1, 2, -1, 2 ** 53, 2 ** 53 + 1, True, False, None, 1.5, "a.b", "", "a b", "a..b", "a.", "com.x.y", "x_y", "x_", "cryptobox",
+           "json", "exact", "prefix", "wildcard", "kill", "skip", "killnowait", "single", "first", "last", "roundrobin", "random",
+           b"", b"x", "wamp.close.normal"]
+FF = [{"session": 1, "authid": "a", "authrole": "r"}, {"session": 2, "authid": None, "authrole": "r"}, {"session": True, "authid": "a", "authrole": "r"},
+      {"session": 1, "authrole": "r"}, {"session": 1, "authid": 3, "authrole": "r"}, {}, 1, "x", None, {"session": 1, "authid": "a", "authrole": None}]
+def value(depth=0):
+    r = rnd.random()
+    if r < 0.55 or depth > 1:
+        return rnd.choice(SCALARS)
+    if r < 0.7:
+        return [value(depth + 1) for _ in range(rnd.randrange(0, 3))]
+    if r < 0.8:
+        return [rnd.choice(FF) for _ in range(rnd.randrange(0, 3))]
+    if r < 0.9:
+        return {rnd.choice(["a", "b", 1, b"k", None]): value(depth + 1) for _ in range(rnd.randrange(0, 3))}
+    return {}
+PAY = [[], [[1, "x"]], [[1], {"k": 1}], [None, {"k": 1}], [[], {}], [b"payload"]]
+BASES = {"Subscribe": [[1, {}, "a.b"]], "Published": [[1, 2]], "Subscribed": [[1, 2]], "Registered": [[1, 2]], "EventReceived": [[2]],
+         "Abort": [[{}, "a.b"]], "Goodbye": [[{}, "a.b"]], "Challenge": [["m", {}]], "Authenticate": [["s", {}]], "Cancel": [[1, {}]],
+         "Interrupt": [[1, {}]], "Unsubscribe": [[1, 2], [1, 2, {}]], "Unregister": [[1, 2], [1, 2, {}]],
+         "Unsubscribed": [[1], [1, {}], [0, {}]], "Unregistered": [[1], [1, {}], [0, {}]], "Register": [[1, {}, "a.b"]],
+         "Yield": [[1, {}] + p_ for p_ in PAY], "Result": [[1, {}] + p_ for p_ in PAY], "Error": [[48, 1, {}, "a.b"] + p_ for p_ in PAY],
+         "Call": [[1, {}, "a.b"] + p_ for p_ in PAY], "Invocation": [[1, 2, {}] + p_ for p_ in PAY],
+         "Event": [[1, 2, {}] + p_ for p_ in PAY], "Publish": [[1, {}, "a.b"] + p_ for p_ in PAY]}
+POOL = [True, False, 0, 1, 7, -1, 2 ** 53, 2 ** 53 + 1, 1.0, "a.b", "com.x.y", "", "a b", "exact", "prefix", "wildcard", "kill", "skip",
+        "killnowait", "single", "first", "last", "roundrobin", "random", "x_y", "x_", "cryptobox", "mqtt", "json", "cbor", None, {}, [],
+        [1, 2], [2 ** 53 + 1], [-1], ["a", "b"], [1, "a"], [FF[0]], [FF[0], FF[1]], [FF[0], 1], [FF[3]], b"k", "key"]
+import copy
+bad, n, accepted, roundtrips = [], 0, 0, 0
+RT = RT_JSON
+for cls_name, u in UNITS.items():
+    cls = getattr(M, cls_name)
+    for _ in range(PER_CLASS):
+        w = [cls.MESSAGE_TYPE] + copy.deepcopy(rnd.choice(BASES[cls_name]))
+        for pos in range(1, len(w)):
+            if isinstance(w[pos], dict) and not (pos == len(w) - 1 and len(w) > 5):
+                for k in u["keys"]:
+                    if rnd.random() < 0.2:
+                        w[pos][k] = rnd.choice(POOL)
+                if rnd.random() < 0.05:
+                    w[pos][rnd.choice([1, b"k", "zz", None])] = rnd.choice(POOL)
+        r = rnd.random()
+        if r < 0.25:                                   # one position replaced by anything
+            w[rnd.randrange(1, len(w))] = value()
+        elif r < 0.32:                                 # wrong element count
+            w = w[:rnd.randrange(1, len(w))] if rnd.random() < 0.5 else w + [value()]
+        n += 1
+        try:
+            result = cls.parse(w)
+        except (ProtocolError, InvalidUriError):
+            continue
+        except Exception as e:
+            bad.append({"cls": cls_name, "wmsg": repr(w), "problem": "parse() raised %s (%s)" % (type(e).__name__, e)}); continue
+        accepted += 1
+        wmsg = w
+        for cl in u["ensures"]:
+            try:
+                ok = bool(eval(cl))
+            except Exception as e:
+                ok = False
+            if not ok:
+                bad.append({"cls": cls_name, "wmsg": repr(w), "problem": "accepted, but the contract clause is false: " + cl[:160]}); break
+        rt = RT.get(cls_name)
+        if rt:
+            # C03 cross-check: the accepted message, if it is one the round-trip contract speaks about, survives marshal / parse
+            m = result
+            try:
+                valid = all(bool(eval(r)) for r in rt["requires"])
+                # the unit's parameter types: args a list, kwargs a dict (PUBLISH also takes pre-serialized str / bytes args,
+                # which the round-trip units do not speak about)
+                valid = valid and (getattr(m, "args", None) is None or type(m.args) == list) and \
+                    (getattr(m, "kwargs", None) is None or type(m.kwargs) == dict)
+            except Exception:
+                valid = False
+            if valid:
+                roundtrips += 1
+                try:
+                    result = cls.parse(m.marshal())
+                    okc = [cl for cl in rt["ensures"] if not bool(eval(cl))]
+                except Exception as e:
+                    okc = ["raised %r" % (e,)]
+                if okc:
+                    bad.append({"cls": cls_name, "wmsg": repr(w), "problem": "round trip: " + okc[0][:160]})
+seen, uniq = set(), []
+for b in bad:
+    k = (b["cls"], b["problem"][:60])
+    if k not in seen:
+        seen.add(k); uniq.append(b)
+print(json.dumps({"cases": n, "accepted": accepted, "roundtrips": roundtrips, "bad": uniq[:10]}))
+'''
+
+
+def _fuzz_crosscheck(tier, seed, roundtrip=None, name="C08/bounded/parse-units-vs-real-code"):
+    """every proved parse() unit against the real code on random untrusted structures: exceptions and, for accepted
+    messages, every postcondition of the contract evaluated natively.  The proofs say this can never fail; if it does, the
+    verifier (or a contract) is wrong.  Bounded, thorough tier only."""
+    import json as _json
+    import re as _re
+    from pyvc import replaylib as Rp
+    from pyvc.contracts import Registry
+    reg = Registry()
+    build(reg)
+    units = {}
+    for c in reg.units:
+        m = _re.search(r":(\w+)\.parse$", c.name)
+        if not m:
+            continue
+        cls = m.group(1)
+        alias = reg.type_aliases.get("W" + cls, "")
+        keys = _re.findall(r"(?:udict:|,)([\w-]+)=", alias)
+        ens = []
+        for e in c.ensures:
+            try:
+                ens.append(Rp.native_clause(e))
+            except Exception:
+                pass
+        import autobahn.wamp.message  # noqa  (lengths are read from the real parse() source below)
+        units[cls] = {"keys": keys, "ensures": ens, "lengths": [2, 3, 4, 5, 6, 7]}
+    code = _FUZZ_HARNESS.replace("UNITS_JSON", "json.loads(%r)" % _json.dumps(units)).replace("SEED", str(1000 + seed)) \
+        .replace("PER_CLASS", "4000").replace("RT_JSON", "json.loads(%r)" % _json.dumps(roundtrip or {}))
+    if roundtrip:
+        return Rp.native_crosscheck(name, code, "the messages accepted out of 4000 random structures per class that satisfy the "
+                                    "round-trip unit's preconditions: parse(marshal(m)) evaluated against the unit's postconditions", timeout=1200)
+    return Rp.native_crosscheck(name, code,
+                                "4000 random untrusted structures per class (23 classes): only ProtocolError / InvalidUriError may "
+                                "escape, and every postcondition of the contract holds natively on every accepted message",
+                                timeout=1200)
+
+
 def extra_checks(tier, seed):
     """Hello.parse / Welcome.parse build role objects from untrusted feature dicts (`role_cls(**features)`) and collect custom
     attributes by iterating the details: outside what the verifier models.  A *bounded* stand-in on the real code: every
@@ -557,6 +711,7 @@ def extra_checks(tier, seed):
                 "time": round(time.time() - t1, 2), "info": {"detail": str(tbl)[:400]},
                 "replay": {"reproduced": not good, "observed": tbl}})
     if tier == "thorough":
+        res.append(_fuzz_crosscheck(tier, seed))
         res.append(Rp.native_crosscheck("C08/bounded/unserialize-envelope", _UNSER_HARNESS,
                                         "20 codec results / exceptions / binary flags on the real Serializer with a stub codec"))
     if crashed:
@@ -635,6 +790,7 @@ import txaio; txaio.use_asyncio()
 from autobahn.wamp import message as M
 from autobahn.wamp.message import *
 from autobahn.wamp.exception import ProtocolError, InvalidUriError
+globals().update({k: getattr(M, k) for k in dir(M) if isinstance(getattr(M, k), type)})
 case = CASE
 WS = [c for c in map(chr, range(0x30000)) if c.isspace()]
 
